@@ -84,6 +84,13 @@ def _worker_init() -> None:
 
     fastjsonschema.compile = compile_memo
     AR.selftest()
+    # the forked worker inherits the parent's loaded device database (some 10^6 objects): keep the cyclic collector
+    # from walking (and, through the reference counts, copying) that heap on every full collection - the areas that
+    # deep-copy their registers on every access (XMCD) trigger one every few milliseconds
+    import gc
+
+    gc.collect()
+    gc.freeze()
 
 
 class Out:
@@ -911,7 +918,7 @@ def targets_of(st: dict, regname: str, tier: str, seed: int = 0) -> list[dict]:
     mdl = st["mdl"]
     out: list[dict] = []
     thin = tier == "quick"  # quick: {0, 1, max, 0x55..}; of more than four enum names the first two and the last two
-    # quick, areas whose load re-validates / deep-copies everything (fuses 20 ms, XMCD 0.3-1.5 s per evaluation):
+    # quick, areas whose load re-validates / deep-copies everything (fuses 20 ms, XMCD 0.1-1 s per evaluation):
     # bit-fields {1, max} and the first and last enum name; whole-register values as above
     xthin = thin and kind in ("fuses", "xmcd")
     if kind == "tz":
@@ -980,6 +987,8 @@ def targets_of(st: dict, regname: str, tier: str, seed: int = 0) -> list[dict]:
         covered &= (1 << r.width) - 1
     seen_v: set[int] = set()
     for v in AR.alphabet(r.width, thin) + [_seeded(seed, regname, r.width)]:
+        if xthin and v in (1, AR.alphabet(r.width, thin)[-1]) and r.width > 1:
+            continue  # fuses / XMCD, quick: whole-register values {0, max, seeded}
         v &= covered
         if v in seen_v:
             continue
@@ -1429,6 +1438,60 @@ def _run_case(case: dict) -> dict:
     raise AssertionError(t)
 
 
+def pool_unordered(ctx: core.Ctx, tasks: list, timeout: int, check_det: int, margin: float, det_key=None):
+    """Like ctx.pool_map (forked workers, watchdog per task, determinism double-run of the first tasks in two separate
+    processes), but results are taken as they complete: with the ordered imap of core.pool_map one slow task (an XMCD
+    'full' block under load: 30 s) holds back the results behind it and the time budget is judged on stale information.
+    -> (results by task index, complete?)   Results are handed back by index so that they are absorbed in task order."""
+    import multiprocessing as mp
+
+    if check_det and tasks:
+        # the double run is serial: take the cheapest tasks for it (the expensive ones are scheduled first)
+        head = sorted(tasks, key=det_key)[:check_det] if det_key else tasks[:check_det]
+        r = []
+        for _ in range(2):
+            with mp.get_context("fork").Pool(1, core._worker_init, (run_case, timeout, None)) as p:
+                r.append([core.jdump(x) for x in p.map(core._worker_call, head)])
+        for a, b, c in zip(r[0], r[1], head):
+            if a != b:
+                raise core.HarnessError(f"nondeterministic result for case {core.jdump(c)[:300]}:\n{a[:600]}\n{b[:600]}")
+        ctx.count("determinism_double_runs", len(head))
+    out: dict[int, Any] = {}
+    if not tasks:
+        return out, True
+    global _TIMEOUT
+    _TIMEOUT = timeout
+    with mp.get_context("fork").Pool(core.NPROC, core._worker_init, (run_case, timeout, None)) as p:
+        for i, res in p.imap_unordered(_indexed_call, list(enumerate(tasks)), chunksize=1):
+            out[i] = res
+            if ctx.time_left() < margin and len(out) < len(tasks):
+                return out, False
+    return out, True
+
+
+_TIMEOUT = 600
+
+
+def _indexed_call(it: tuple) -> tuple:
+    """core._worker_call that keeps the task index also for a watchdog / crash record."""
+    import signal
+    import traceback
+
+    signal.alarm(_TIMEOUT)
+    try:
+        res = run_case(it[1])
+    except core.Watchdog:
+        res = {"__watchdog__": True}
+    except BaseException as e:  # noqa
+        res = {"__crash__": f"{type(e).__name__}: {e}", "tb": traceback.format_exc()[-2000:]}
+    finally:
+        signal.alarm(0)
+    return it[0], res
+
+
+COST = {"xmcd": 0, "fcb": 1, "fuses": 2, "pfr.cmpa": 3}  # most expensive first: the long tasks start early
+
+
 def _sort_key(inst: dict):
     return (KINDS.index(inst["kind"]), inst["family"], inst["rev"], inst["sub"])
 
@@ -1439,7 +1502,15 @@ def run(ctx: core.Ctx) -> None:
 
     logging.disable(logging.CRITICAL)
     kinds = [k for k in os.environ.get("VERIF_C12_KINDS", "").split(",") if k] or None
-    insts = sorted(A.enum_all(kinds), key=_sort_key)
+    # The instances are enumerated in a child process: enumerating loads the complete device database, and every
+    # Registers object points at it (Registers.db -> Features -> Device -> Database), so the areas that deep-copy their
+    # registers (XMCD: on every access) would copy all 140 devices each time in every worker forked from this process.
+    import multiprocessing as mp
+
+    with mp.get_context("fork").Pool(1) as p0:
+        enumerated = p0.apply(_enumerate, (kinds,))
+    latest = {A.inst_id(i): l for i, l in enumerated}
+    insts = sorted((i for i, _ in enumerated), key=_sort_key)
     thorough = ctx.tier == "thorough"
     # ---- k = 0: every instance ----------------------------------------------------------------------------------
     classes: dict[str, list[dict]] = {}
@@ -1457,12 +1528,15 @@ def run(ctx: core.Ctx) -> None:
             if len(lst) < 400:
                 lst.append(tag)
 
-    margin = 30 if ctx.tier == "quick" else 90  # results arrive in task order: leave room for the task in flight
-    base_done = 0
-    for case, res in ctx.pool_map(run_case, base_cases, timeout=120, chunksize=4, check_det=3):
-        if ctx.time_left() < margin:
-            break
-        base_done += 1
+    margin = 20 if ctx.tier == "quick" else 90
+    base_cases.sort(key=lambda c: (COST.get(c["kind"], 9), c["kind"] == "xmcd" and c["sub"][1] != "full"))
+    got, complete = pool_unordered(ctx, base_cases, timeout=120, check_det=3, margin=margin, det_key=_sort_key)
+    base_done = len(got) if not complete else len(base_cases)
+    order_back = sorted(range(len(base_cases)), key=lambda i: _sort_key(base_cases[i]))
+    for i in order_back:
+        if i not in got:
+            continue
+        case, res = base_cases[i], got[i]
         if not ctx.absorb(case, res):
             continue
         note(case, res)
@@ -1502,7 +1576,7 @@ def run(ctx: core.Ctx) -> None:
     for ck in sorted(classes, key=class_order):
         members = classes[ck]
         # representative: prefer the latest revision (the CLI tools of several areas know no other)
-        reps = sorted(members, key=lambda i: (not _is_latest(i), i["family"], i["rev"]))[:nrep]
+        reps = sorted(members, key=lambda i: (not latest.get(A.inst_id(i), False), i["family"], i["rev"]))[:nrep]
         cli_cases.append(dict(reps[0], t="cli", base_fail=base_fail.get(A.inst_id(reps[0]), [])))
         for rep in reps:
             regs = list(targets[ck].items())
@@ -1523,10 +1597,11 @@ def run(ctx: core.Ctx) -> None:
                 else:
                     keep = {r for lst in by_struct.values() for r in lst[:1] + lst[-1:]}
                 if xm and rep["sub"][1] == "full" and not thorough:
-                    # quick: a "full" block costs > 1 s per evaluation and is a plain register array (the code that is
-                    # particular to XMCD sits in the header and in configOption0/1 of the simplified blocks): only the header,
-                    # unless an earlier class explored it; thorough explores the block
-                    keep = {n for n, _ in regs if n == "header"}
+                    # quick: a "full" block is a plain array of 50-130 registers (the code that is particular to XMCD sits in
+                    # the header and in configOption0/1 of the simplified blocks): the header (unless an earlier class
+                    # explored it), the first and the last register of the block; thorough explores the block
+                    names = [n for n, _ in regs]
+                    keep = {n for n in names if n == "header"} | set(names[1:2]) | set(names[-1:])
                 skipped_struct += len(regs) - len(keep)
                 regs = [(r, e) for r, e in regs if r in keep]
             for reg, eh in regs:
@@ -1537,7 +1612,9 @@ def run(ctx: core.Ctx) -> None:
                         skipped_entries += 1
                         continue
                     seen_entries.add(eh)
-                nsl = 4 if rep["kind"] == "xmcd" else 1  # 0.5 s per XMCD evaluation: keep the cases far below the watchdog
+                # thorough: > 0.5 s per XMCD evaluation, keep the cases far below the watchdog; the thinned quick tier has few
+                # evaluations per register, and every task rebuilds the base state of its instance (1-3 s for XMCD)
+                nsl = 4 if (rep["kind"] == "xmcd" and thorough) else 1
                 for k in range(nsl):
                     dep_cases.append(dict(rep, t="dep", reg=reg, tier=ctx.tier, rt_all=thorough, pairs=thorough, seed=ctx.seed,
                                           base_fail=base_fail.get(A.inst_id(rep), []), **({"slice": [k, nsl]} if nsl > 1 else {})))
@@ -1561,10 +1638,14 @@ def run(ctx: core.Ctx) -> None:
         cur.append(c)
     if cur:
         tasks.append({"t": "multi", "cases": cur})
-    for task, mres in ctx.pool_map(run_case, tasks, timeout=600, chunksize=1, check_det=2):
-        if ctx.time_left() < margin:
-            cut = True
-            break
+    # the expensive tasks first (XMCD departures, then the CLI cases of every class, FCB, fuses), the many cheap ones fill up
+    tasks.sort(key=lambda t: (0 if (t["cases"][0]["t"] == "dep" and t["cases"][0]["kind"] == "xmcd") else
+                              1 if t["cases"][0]["t"] == "cli" else 2 + COST.get(t["cases"][0]["kind"], 9)))
+    got2, complete2 = pool_unordered(ctx, tasks, timeout=600, check_det=2, margin=margin,
+                                     det_key=lambda t: (t["cases"][0]["t"] != "dep", _sort_key(t["cases"][0]), t["cases"][0].get("reg", "")))
+    cut = not complete2
+    for ti in sorted(got2):
+        task, mres = tasks[ti], got2[ti]
         if isinstance(mres, dict) and "multi" in mres:
             pairs = list(zip(task["cases"], mres["multi"]))
         else:
@@ -1627,7 +1708,7 @@ def run(ctx: core.Ctx) -> None:
         "fastjsonschema.compile is memoised per worker on the JSON text of the schema (third-party, pure); every distinct schema is compiled for real",
         "FCB / fuses departures load a configuration holding only the register under test (all others stay at reset, as in the template); "
         "quick tier: fuse departures skip the two whole-map schema validations of Fuses.load_from_config (which runs at base for every instance, and for every value in the thorough tier); "
-        "XMCD 'full' blocks: header only in the quick tier",
+        "XMCD 'full' blocks in the quick tier: header, first and last register; fuses / XMCD whole-register values {0, max, seeded}",
         "whole-register values stay inside the bits that the description file declares (named fields or gaps) and outside bit-fields that share "
         "their name with another field of the same register: other bits cannot be written in the bit-field form get_config() produces",
         "an enum name that the description file gives to several values is not used as an input (ambiguous); the numeric values are",
@@ -1638,6 +1719,14 @@ def run(ctx: core.Ctx) -> None:
         "XMCD: a departure that makes the header name another interface / block type is not parsed back (the binary is then another area's)",
         "one representative per class in both tiers (DESIGN allowed up to three in thorough; the time goes into all values x all round trips instead)",
     ]
+
+
+def _enumerate(kinds: Optional[list]) -> list:
+    core.bind_repo()
+    import logging
+
+    logging.disable(logging.CRITICAL)
+    return [(i, _is_latest(i)) for i in A.enum_all(kinds)]
 
 
 def _is_latest(inst: dict) -> bool:
